@@ -1051,6 +1051,12 @@ func (io *invertedIndexOpaque) Reset() (err error) {
 	io.tmp0 = io.tmp0[:0]
 	io.extraDocValues = nil
 	atomic.StoreUint64(&io.bytesWritten, 0)
+
+	// the section addresses of the previous build must not reach the fields
+	// section of the next one (an empty batch writes no dictionaries)
+	for fieldID := range io.fieldAddrs {
+		delete(io.fieldAddrs, fieldID)
+	}
 	io.fieldsSame = false
 	io.numDocs = 0
 
